@@ -28,7 +28,7 @@ inductive TxR where
 structure BlockOut where
   txrs : List TxR
   updates : List (Nat × Int)
-  deriving Repr, Inhabited
+  deriving Repr, Inhabited, DecidableEq
 
 structure GVal where
   op : Nat
@@ -120,4 +120,55 @@ def initChain (g : Genesis) : Except Halt (List (Nat × Int) × App) :=
     else .ok (ups, { s with cached := s.lastTotal.toNat, absCh := 0 })
 
 end App
+end PoaVerif
+
+namespace PoaVerif
+
+/-! ### histories: the application driven block by block, CometBFT applying each block's updates -/
+
+structure Step where
+  out : BlockOut
+  app : App
+  comet : CSet
+  deriving Repr, DecidableEq
+
+/-- how a history ends: all blocks executed, block execution failed, or CometBFT refused an update list -/
+inductive RunEnd where
+  | done | halted (h : Halt) | rejected (e : CometErr)
+  deriving Repr, DecidableEq
+
+/-- run blocks from a state and a CometBFT validator set; stops at the first failure -/
+def runFrom (env : Env) : App → CSet → List Block → List Step × RunEnd
+  | _, _, [] => ([], .done)
+  | s, c, b :: bs =>
+    match App.block env s b with
+    | .error h => ([], .halted h)
+    | .ok (o, s') =>
+      match Comet.applyChangeSet c o.updates with
+      | .error e => ([], .rejected e)
+      | .ok c' =>
+        let r := runFrom env s' c' bs
+        (⟨o, s', c'⟩ :: r.1, r.2)
+
+/-- InitChain, then the blocks -/
+def run (env : Env) (g : Genesis) (bs : List Block) : Option (Step × List Step × RunEnd) :=
+  match App.initChain g with
+  | .error _ => none
+  | .ok (u, s) =>
+    match Comet.applyChangeSet [] u with
+    | .error _ => none
+    | .ok c => some (⟨⟨[], u⟩, s, c⟩, runFrom env s c bs)
+
+/-- the PoA consensus-power query: decode the address, require the validator record, read the last power -/
+def App.queryPower (s : App) (target : Option Nat) : Option Int :=
+  match target with
+  | none => none
+  | some op =>
+    match s.getVal op with
+    | none => none
+    | some _ => some (s.lastPower op)
+
+/-- the pending-validators query -/
+def App.queryPending (s : App) : List Pending := s.pending
+
 end PoaVerif
